@@ -109,7 +109,7 @@ Section Idem.
   Hypothesis Htarget : beqb elem (B"a") = true -> forall v, Fa (TARGET, v) = [(TARGET, v)].
   Hypothesis Hcross : mem elem crossorigin_elements = true -> forall v, Fa (CROSSORIGIN, v) = [(CROSSORIGIN, v)].
   (* as in AttrIdemLinks *)
-  Hypothesis Hurl : forall k v, url_attr_of elem = Some k -> Fa (k, v) = [(k, v)].
+  Hypothesis Hurl : forall k v u, url_attr_of elem = Some k -> Fa (k, v) = [(k, v)] -> Fa (k, u) = [(k, u)].
   Hypothesis Hrw : srcRewriter p = None.
   Hypothesis Hstable : forall raw u, valid_url I p raw = Some u -> valid_url I p u = Some u.
   Hypothesis Hnosandbox : forall l, sandbox_pass p elem l = l.
@@ -133,7 +133,7 @@ Section Idem.
         rewrite Hrw. assert (Eu : (if beqb k (B"src") then u else u) = u) by (destruct (beqb k (B"src")); reflexivity). rewrite Eu.
         assert (Hk : akey a0 = k) by (unfold key_is in Eka; apply beqb_eq in Eka; exact Eka).
         split.
-        * unfold kept. rewrite Hk. apply Hurl. reflexivity.
+        * unfold kept in *. rewrite Hk. apply (Hurl k (aval a0) u eq_refl). rewrite <- Hk. rewrite attr_eta. exact Hf.
         * unfold url_pass_attr. rewrite Ek. change (key_is k (akey a0, u)) with (key_is k a0). rewrite Eka. cbn [aval snd]. rewrite (Hstable _ _ Ev), Hrw, Eu. reflexivity.
       + destruct Ha as [<-|[]]. split; [assumption|]. unfold url_pass_attr. rewrite Ek, Eka. reflexivity.
     - destruct Ha as [<-|[]]. split; [assumption|]. unfold url_pass_attr. rewrite Ek. reflexivity.
@@ -206,11 +206,7 @@ Section Decide.
   Variable I : interp M U R.
   Variable p : policy M U R.
 
-  Definition unpatterned_in (k : bytes) (tbl : amap (list (attr_policy M))) : bool :=
-    match lookup k tbl with
-    | Some l => existsb (fun ap => match ap with None => true | Some _ => false end) l
-    | None => false
-    end.
+  Notation unpatterned_in := (unpatterned_in M).
   Definition accepted_b (aps : amap (list (attr_policy M))) (k : bytes) : bool :=
     unpatterned_in k aps || unpatterned_in k (globalAttrs p).
   (* every attribute a pass can force on this element is allowed on it (or globally) without a pattern *)
@@ -219,22 +215,15 @@ Section Decide.
     (negb (beqb elem (B"a")) || accepted_b aps TARGET) &&
     (negb (mem elem crossorigin_elements) || accepted_b aps CROSSORIGIN).
   Definition elem_stable2_b (elem : bytes) (aps : amap (list (attr_policy M))) : bool :=
-    elem_stable_b p elem aps || (forced_accepted_b elem aps && url_unpatterned_b M elem aps && no_sandbox_b M U R p elem).
-
-  Lemma unpatterned_accepts k tbl v : unpatterned_in k tbl = true -> rules_accept I tbl (k, v) = true.
-  Proof.
-    unfold unpatterned_in, rules_accept. cbn [akey fst aval snd]. destruct (lookup k tbl) as [l|]; [|discriminate].
-    intros H. apply existsb_exists in H as (ap & Hin & Hap). apply existsb_exists. exists ap. split; [exact Hin|].
-    destruct ap; [discriminate | reflexivity].
-  Qed.
+    elem_stable_b p elem aps || (forced_accepted_b elem aps && url_free_b M U R p elem aps && no_sandbox_b M U R p elem).
 
   Lemma accepted_sound elem aps hsp k v : key_is (B"style") (k, v) = false -> accepted_b aps k = true ->
     filter_attr I p elem aps hsp (k, v) = [(k, v)].
   Proof.
     intros Hk H. unfold filter_attr. destruct (allowDataAttributes p && is_data_attribute (akey (k, v))); [reflexivity|].
     rewrite Hk. cbn [andb]. unfold accepted_b in H. apply orb_true_iff in H as [H|H].
-    - rewrite (unpatterned_accepts k aps v H). reflexivity.
-    - destruct (rules_accept I aps (k, v)); [reflexivity|]. rewrite (unpatterned_accepts k _ v H). reflexivity.
+    - rewrite (unpatterned_accepts M U R I k aps v H). reflexivity.
+    - destruct (rules_accept I aps (k, v)); [reflexivity|]. rewrite (unpatterned_accepts M U R I k _ v H). reflexivity.
   Qed.
 
   Hypothesis Hrw : srcRewriter p = None.
@@ -253,7 +242,7 @@ Section Decide.
       + intros He v. rewrite He in Hr. cbn [negb orb] in Hr. apply accepted_sound; [reflexivity | assumption].
       + intros He v. rewrite He in Ht. cbn [negb orb] in Ht. apply accepted_sound; [reflexivity | assumption].
       + intros He v. rewrite He in Hc. cbn [negb orb] in Hc. apply accepted_sound; [reflexivity | assumption].
-      + apply (url_unpatterned_sound M U R I p); assumption.
+      + apply (url_free_sound M U R I p); assumption.
       + apply (no_sandbox_sound M U R p); exact H3.
   Qed.
 End Decide.
